@@ -61,6 +61,8 @@ def run(ctx) -> None:
                     cur += D * (rng.choice([2, 5, 20]) if k in gaps else 1)
                 t.append(cur)
         x = gen.series(rng, n, pmiss=rng.choice([0, 0.15, 0.4]))
+        scale = rng.choice([1.0, 1.0, 1.0, 2.0 ** -30, 2.0 ** -40, 2.0 ** 20])  # exact rescaling of data and thresholds alike
+        x = [None if v is None else v * scale for v in x]
         kind = rng.choice(["std", "range"])
         windowed = rng.random() < 0.7 and n >= 1
         period = min_obs = min_period = None
@@ -83,14 +85,16 @@ def run(ctx) -> None:
                 min_period = rng.choice([D, 2 * D, int(2.5 * D) or 1, 3 * D, period])
                 msetting = "min_period"
         sp = spreads(x, t, period, kind)
-        pool = [0, 0.5, 10.0, *(s * f for s in sp for f in (0.5, 1.0, 1.5))]
-        pool = [p for p in pool if p == 0 or p > 1e-6]
+        pool = [0, 0.5 * scale, 10.0 * scale, *(s * f for s in sp for f in (0.5, 1.0, 1.5))]
+        pool = [p for p in pool if p == 0 or p > 1e-6 * scale]
         st, ft = rng.choice(pool), rng.choice(pool)
         if rng.random() < 0.7 and ft > st:
             st, ft = ft, st
         carrier = rng.choice(CARRIERS)
         r = rng.random()
-        if r < 0.65:
+        if r < 0.1 and all(v is None or float(np.float32(v)) == v for v in x):
+            inp = gen.arr(x).astype(np.float32)
+        elif r < 0.65:
             inp = gen.arr(x)
         elif r < 0.8:
             inp = list(x)
@@ -135,6 +139,28 @@ def run(ctx) -> None:
                           logical={"x": "20001 points, flat stretches around 4096/8192/16384", "check_type": kind}, hist=f"attenuated.{kind}")
             ctx.count("attenuated.calls")
             ctx.case(f"huge|{kind}")
+    if ctx.shard == 1 % ctx.nshards:
+        # a long record sampled every 60 s in which one stamp was logged late (the mean step still equals the median step)
+        n = 1300
+        t = gen.regular(n, 60)
+        for late in (400, 900):
+            t[late] += 20
+            t[late + 300] -= 0  # (no compensation needed: the span is unchanged)
+        x = [float((k * 7) % 5) * 0.25 for k in range(n)]
+        for b in (395, 398, 401, 404, 899, 902):
+            x[b] = 9.0
+        x[410] = None
+        for kind in ("std", "range"):
+            for per in (130, 180, 190, 250):
+                extra, mo = rng.choice([({"min_obs": 2}, 2), ({}, None)])
+                kw = {"inp": gen.arr(x), "tinp": gen.times(t), "suspect_threshold": 2.0, "fail_threshold": 0.6, "test_period": per,
+                      "check_type": kind, **extra}
+                client.expect(ctx, "C12", "qartod.attenuated_signal_test", kw,
+                              lambda: models.attenuated(x, t, 2.0, 0.6, per, mo, None, kind),
+                              logical={"x": "1300 points", "t": "60 s sampling, stamps 400 and 900 logged 20 s late", "test_period": per,
+                                       "check_type": kind, **extra}, hist=f"attenuated.{kind}")
+                ctx.count("attenuated.calls")
+                ctx.case(f"long-displaced-stamp|{kind}|{per}|{bool(extra)}")
     # history: the sampling step belongs to the axis of THIS call (regular axis, then a burst-sampled axis with one
     # outage that has the same length and the same first and last instant, and the other way round)
     for _ in range(ctx.pick(60, 400)):
